@@ -303,13 +303,14 @@ class AirTouchSocket(Generic[comms.Hdr]):
             )
 
             self.is_connected = True
+            # Start reading before anything else can fail, otherwise the
+            # socket would be left connected without a read loop.
+            self._schedule(self._read())
             _LOGGER.debug("Connected to %s:%d", self.host, self.port)
             await self._notify_connection_changed(connected=self.is_connected)
 
             # Send any buffered messages
             await self._drain_message_queue()
-
-            self._schedule(self._read())
         except OSError as ex:
             _LOGGER.debug("Unable to connect. Will try again later. Reason: %s", ex)
 
